@@ -377,3 +377,20 @@ def key_notations(path):
                 cur = {k: cur}
             out.append(("dict-value", cur))
     return out
+
+
+def has_cycle(obj, stack=None):
+    """does a dictionary / list contain itself ?"""
+    if stack is None:
+        stack = set()
+    if isinstance(obj, (dict, list, tuple)):
+        if id(obj) in stack:
+            return True
+        stack.add(id(obj))
+        try:
+            for v in (obj.values() if isinstance(obj, dict) else obj):
+                if has_cycle(v, stack):
+                    return True
+        finally:
+            stack.discard(id(obj))
+    return False
